@@ -236,7 +236,8 @@ def observe_divide(shape, chunks, lazy_first):
 
 
 def tags_for(ev, clauses):
-    return {"clauses": sorted(clauses), "kind": ev["kind"], "rank": len(ev["shape"]), "single_block": all(len(c) == 1 for c in ev["chunks"])}
+    return {"clauses": sorted(clauses), "kind": ev["kind"], "rank": len(ev["shape"]), "single_block": all(len(c) == 1 for c in ev["chunks"]),
+            "single_member": all(n == 1 for n in ev["shape"])}
 
 
 def judge(ctx: Ctx, evs):
@@ -278,7 +279,8 @@ def run(ctx: Ctx):
         shape, chunks = c["shape"], c["chunks"]
         kinds = list(KINDS1 if len(shape) == 1 else KINDS2)
         if quick and len(shape) == 2:
-            kinds = rng.sample(kinds, 3)
+            sampled = rng.sample(kinds, 3)
+            kinds = kinds if all(n == 1 for n in shape) else sampled       # the single-member ensemble: every kind, at every seed
         for k in kinds:
             ev = observe(k, shape, chunks)
             evs.append(ev)
